@@ -22,7 +22,7 @@ theorem unwrap_wrap (cenv : CEnv) (xenv : XEnv) (e : Inst) (hw : e.wf xenv = tru
     unwrapModel cenv xenv [(Gen.EventSerial.pydFlagKey, .bool true), (Gen.EventSerial.pydValueKey, .obj (dumpModel e)),
         (Gen.EventSerial.pydNameKey, .str e.cls.qual)] = .ok e := by
   have hi' : dget cenv e.cls.qual = some e.cls := by simpa [importable] using hi
-  simp [unwrapModel, dget, Gen.EventSerial.pydFlagKey, Gen.EventSerial.pydValueKey,
+  simp [unwrapModel, importName, dget, Gen.EventSerial.pydFlagKey, Gen.EventSerial.pydValueKey,
     Gen.EventSerial.pydNameKey, hi', modelValidate_dump xenv e hw]
 
 theorem deserialize_wrap (cenv : CEnv) (xenv : XEnv) (e : Inst) (hw : e.wf xenv = true)
